@@ -147,6 +147,10 @@ Definition c18_spec_rel_defined (base p : c18_str) : bool :=
 Definition c18_spec_rel_accepts (base p r : c18_str) : bool :=
   c18_eq_loc (c18_denote (c18_spec_concat base r)) (c18_denote p).
 
+(* which NotImplemented is documented for which situation, with the ORIGINAL arguments quoted verbatim *)
+Definition c18_spec_rel_message (base p : c18_str) : c18_str :=
+  if Bool.eqb (c18_is_abs base) (c18_is_abs p) then c18_msg_up base p else c18_msg_abs base p.
+
 (* ---- prefix / suffix: plain definitions *)
 Fixpoint c18_spec_prefix (x s : c18_str) : bool :=
   match x, s with
